@@ -1,4 +1,5 @@
 ------------------------------ MODULE MC_mini ------------------------------
 (* Exhaustive run over every damage of every file of the four miniature models. *)
 EXTENDS ModelInit
+AllIntact == <<IntactOf(1), IntactOf(2), IntactOf(3), IntactOf(4)>>
 =============================================================================
